@@ -50,7 +50,7 @@ CLAIMED = {
  'C16': dict(text='Theorems about a Gallina model of the text primitives of N2kMsg.cpp: AddAISStr/AddVarStr never write beyond the 223-byte payload or read beyond the terminator for any string and any maximum, AddStr when the '
                   'maximum fits; the variable string field is well formed (length/type bytes consistent, every counted byte written); the sized readers never write beyond the destination and always terminate it; round trips for '
                   'fixed, AIS (independent alphabet mapping) and variable ASCII/BMP text (astral characters replaced).  Model tied to the C++ by correspondence with exact-size heap strings and canaried destinations.',
-             note=TB + 'Modelled: N2kMsg.cpp string functions; x86-64 (signed char, glibc toupper on negative char tolerated); UsePgm not exercised.',
+             note=TB + 'Modelled: N2kMsg.cpp string functions; x86-64 (signed char, glibc toupper on negative char tolerated); the UsePgm variants of the add functions are run beside the plain ones and must give the same bytes (program memory is ordinary memory on this host).',
              design='6 C16', technique='Coq proof over executable model + extracted-model/implementation correspondence'),
  'C17': dict(text='Theorems about a Gallina model of SendInActisenseFormat and tActisenseReader: every well-formed message (1..223 bytes, any escape density, any header) encodes to a frame that fits the buffer and is decoded '
                   'as exactly that one message after any byte prefix that does not end mid-escape; the reader never writes outside its buffers on any byte stream from any reachable state; it reports only on a consistent frame '
